@@ -92,3 +92,8 @@ Definition rid_char_ok (c : N) : bool := negb ((c <? 33) || (126 <? c) || (c =? 
 (* the part of a resource id before the first '?' *)
 Fixpoint before_q (r : bytes) : bytes :=
   match r with [] => [] | c :: r' => if c =? qmark then [] else c :: before_q r' end.
+
+(* ---- side conditions of valid_rid_is_valid_pattern (Props/C17.v) ---- *)
+Definition no_dollar_tokens (s : bytes) : bool :=
+  forallb (fun t => match t with c :: _ => negb (c =? dollar) | [] => true end) (tokens s).
+Definition no_qmark (s : bytes) : bool := forallb (fun c => negb (c =? qmark)) s.
